@@ -473,6 +473,93 @@ func TestVerifC13(t *testing.T) {
 		}
 	}
 
+	// ---- totals on a STRIDE: len(ZA || M) an exact multiple of a power of two (2^9 .. 2^21, 1..3 strides, +-1), for
+	//      the 32-byte ZA of the message-level calls and for other za lengths of the za-level ones. A chunked or
+	//      streamed feed of ZA || M with a wrong tail (mask 0 when exactly one full chunk remains) drops or repeats
+	//      a chunk only there. Judged as everywhere: the digest-level functions on the model's e = SM3(ZA || M),
+	//      plus the truncated message, which must not verify.
+	{
+		maxJ := 19
+		if hk.Thorough() {
+			maxJ = 22
+		}
+		buf := rng.Bytes(3<<uint(maxJ) + 64)
+		d := zvRandScalar(rng)
+		P := ref.BaseMulFast(d)
+		px, py := ref.B32(P.X), ref.B32(P.Y)
+		id := []byte("1234567812345678")
+		zaStd, _ := ref.SM2ZA(id, px, py)
+		type strideCase struct{ zalen, ml int }
+		var cases []strideCase
+		for j := 9; j <= maxJ; j++ {
+			for k := 1; k <= 3; k++ {
+				for _, dl := range []int{-1, 0, 1} {
+					if ml := k<<uint(j) - 32 + dl; ml > 0 {
+						cases = append(cases, strideCase{32, ml})
+					}
+				}
+				if zl := []int{0, 1, 31, 33, 64}[(j+k)%5]; k<<uint(j)-zl > 0 {
+					cases = append(cases, strideCase{zl, k<<uint(j) - zl})
+				}
+			}
+		}
+		hk.Parallel(len(cases), func(i int) {
+			c := cases[i]
+			crng := hk.NewRNG(hk.Seed(), zvCaseID("c13stride", i))
+			msg := buf[:c.ml]
+			za := zaStd
+			if c.zalen != 32 {
+				za = crng.Bytes(c.zalen)
+			}
+			e := ref.SM2E(za, msg)
+			k := zvRandScalar(crng)
+			det := hk.D{"msglen": c.ml, "zalen": c.zalen, "za": hk.Hex(za), "px": hk.Hex(px), "py": hk.Hex(py), "priv": hk.Hex(ref.B32(d)), "k": hk.Hex(ref.B32(k)), "msg": "buf[:msglen] of rng(c13) stream"}
+			var r1, s1 []byte
+			var err error
+			var okZa, okShort, okId bool
+			pn, pm, _, _ := hk.Try(func() {
+				r1, s1, err = SignZa(zvNewScript(append(ref.B32(k), crng.Bytes(64)...)), ref.B32(d), za, msg)
+				if r1 != nil && s1 != nil {
+					okZa, _ = VerifyZa(px, py, za, msg, r1, s1)
+				}
+			})
+			if pn {
+				det["panic"] = pm
+				r.Violation("SignZa-panics:stride-aligned-total", det)
+				return
+			}
+			if err != nil || r1 == nil || s1 == nil || !ref.SM2Verify(px, py, e, r1, s1) {
+				det["signza"], det["err"] = zvHexOrNil(r1)+","+zvHexOrNil(s1), zvErrStr(err)
+				r.Violation("SignZa-not-over-SM3(ZA||M):stride-aligned-total", det)
+				return
+			}
+			if !okZa {
+				r.Violation("VerifyZa-rejects-own-signature:stride-aligned-total", det)
+			}
+			if okH, _ := VerifyHashed(px, py, e, r1, s1); !okH {
+				r.Violation("VerifyZa-differs-from-VerifyHashed:stride-aligned-total", det)
+			}
+			for _, cut := range []int{1, 64, 512, 32768} {
+				if c.ml > cut {
+					if okShort, _ = VerifyZa(px, py, za, msg[:c.ml-cut], r1, s1); okShort {
+						det["cut"] = cut
+						r.Violation("signature-verifies-for-truncated-message:stride-aligned-total", det)
+					}
+				}
+			}
+			if c.zalen == 32 {
+				r2, s2, err2 := Sign(id, px, py, zvNewScript(append(ref.B32(k), crng.Bytes(64)...)), ref.B32(d), msg)
+				if err2 != nil || !ref.SM2Verify(px, py, e, r2, s2) {
+					det["sign"], det["err"] = zvHexOrNil(r2)+","+zvHexOrNil(s2), zvErrStr(err2)
+					r.Violation("Sign-not-over-SM3(ZA||M):stride-aligned-total", det)
+				} else if okId, _ = Verify(id, px, py, msg, r2, s2); !okId {
+					r.Violation("Verify-rejects-own-signature:stride-aligned-total", det)
+				}
+			}
+			r.Eval(fmt.Sprintf("stride:zalen=%d,total-bits=%d", c.zalen, zvBitlenInt(c.ml+c.zalen)))
+		})
+	}
+
 	// ---- call histories on REUSED buffers: the same id / key / message buffers are overwritten in place
 	//      between id-level calls (a server handling one request after another). Every call is compared
 	//      with the model for the contents the buffers hold at that moment.
